@@ -75,7 +75,7 @@ pub fn exec_look(ops: Vec<Op>, probes: Vec<(ATerm, &'static str)>, seed: u64) ->
             let re = to_recexpr::<Main>(t);
             // lookup again right before the insertion (earlier probe insertions may have added it)
             let l = guarded(|| lookup_rec_expr(&re, &eg)).ok().flatten();
-            let before = eg.progress();
+            let before = eg.verif_measure();
             let nodes_before = eg.total_number_of_nodes();
             let a = match guarded(|| eg.add_expr(re.clone())) {
                 Ok(a) => a,
@@ -85,8 +85,8 @@ pub fn exec_look(ops: Vec<Op>, probes: Vec<(ATerm, &'static str)>, seed: u64) ->
                     continue;
                 }
             };
-            let after = eg.progress();
-            let created = after.number_of_classes != before.number_of_classes || eg.total_number_of_nodes() != nodes_before;
+            let after = eg.verif_measure();
+            let created = after.0 != before.0 || eg.total_number_of_nodes() != nodes_before;
             if l.is_some() == created {
                 viol("lookup-disagrees-with-add-creating-something");
             }
